@@ -20,7 +20,7 @@ MANIFEST = dict(
     note="Modelled, not verified: Python's binary-operator dispatch (NotImplemented fallback to __radd__, += falling back to +), UserString.",
     technique="Lean 4 proof (mutual structural induction over trees; induction over expressions) + differential correspondence",
 )
-PROP_FILES = ["HtmlVerif/Props/C04.lean", "HtmlVerif/Props/SrcEscape.lean"]
+PROP_FILES = ["HtmlVerif/Props/C04.lean", "HtmlVerif/Props/SrcEscape.lean", "HtmlVerif/Props/SrcC08b.lean"]
 
 
 def exprs(leaves, n):
@@ -199,6 +199,7 @@ def run(tier: str) -> int:
     for l, im in zip(lines, impl):
         ck.add(l, im, nontrivial=(" h " in l and (" p " in l or " o " in l)), tag="hexpr")
     ck.add_src(['HTML_add', 'HTML_radd', 'add', 'HTML_as_string', 'normalize_text'])
+    ck.add_src(['HTML_initC08b', 'HTML_strC08b', 'HTML_reprC08b', 'HTML_repr_htmlC08b'], quick=150, thorough=1000)
     ck.correspond(holds=True)
     # tree level
     fns = gen.fn_catalogue(ck.proof.translate_info)
